@@ -70,7 +70,28 @@ INITIAL_GRAPHS = {
     'two': [['a', [['b', []]]], ['c', [['a', []], ['b', []]]]],
     'three': [['a', []], ['b', [['a', []]]], ['c', [['b', [['a', []]]], ['a', []]]]],
     'diamond': [['a', [['b', [['c', []]]], ['b', [['@', 0]]]]]],
+    'big': [['a', [['b', [['c', [['a', [['b', []]]]]]]]]]],
+    'mixed_sizes': [['a', []], ['a', [['b', [['c', [['a', []]]]]]]], ['b', [['a', []], ['c', []]]]],
 }
+
+
+# custom verification rules (module level so that they can be pickled / named)
+def make_rule(spec):
+    """spec: ['max_nodes', k, 'false'|'raise'] | ['no_label', name, 'false'|'raise']"""
+    kind, arg, how = spec
+
+    def rule(graph):
+        if kind == 'max_nodes':
+            ok = len(graph.nodes) <= arg
+        elif kind == 'no_label':
+            ok = all(str(n) != arg for n in graph.nodes)
+        else:
+            raise KeyError(kind)
+        if not ok and how == 'raise':
+            raise ValueError('custom rule %s violated' % kind)
+        return ok
+    rule.__name__ = 'rule_%s_%s_%s' % (kind, arg, how)
+    return rule
 
 
 # ----------------------------------------------------------------------------------------------
@@ -114,6 +135,9 @@ class Metric:
         bc = self.faults.get('by_class')
         if bc and len(g.nodes) % bc[0] == bc[1]:
             fault = bc[2]
+        bl = self.faults.get('by_label')
+        if bl and any(str(x) == bl[0] for x in g.nodes):
+            fault = bl[1]
         after = self.faults.get('all_after')
         if after is not None and idx >= after[0]:
             fault = after[1]
@@ -173,8 +197,11 @@ def make_optimiser(cfg, log, history_dir=None):
         structural_diversity_frequency_check=cfg.get('diversity_check', -1),
         max_num_of_operator_attempts=cfg.get('operator_attempts', 20),
     )
-    gen = GraphGenerationParams(adapter=IdentityAdapter(), rules_for_constraint=DEFAULT_DAG_RULES,
-                                node_factory=DefaultOptNodeFactory(NODE_TYPES))
+    rules = list(DEFAULT_DAG_RULES)
+    if cfg.get('rule'):
+        rules.append(make_rule(cfg['rule']))
+    gen = GraphGenerationParams(adapter=IdentityAdapter(), rules_for_constraint=rules,
+                                node_factory=DefaultOptNodeFactory(cfg.get('node_types') or NODE_TYPES))
     initial = [build_graph(s) for s in INITIAL_GRAPHS[cfg.get('initial', 'two')]]
     cls = OPTIMISERS[cfg['optimiser']]
     opt = cls(objective, initial, req, gen, gp)
@@ -318,4 +345,52 @@ def random_config(rng, optimiser=None, multi=None):
         'show_progress': False,
         'seed': rng.randrange(10 ** 6),
     }
+    r = rng.random()
+    if r < 0.2:
+        cfg['rule'] = rng.choice([['max_nodes', 3, 'false'], ['max_nodes', 4, 'raise'], ['no_label', 'c', 'false'], ['no_label', 'b', 'raise']])
+        # the populational optimisers need at least one initial graph that the rule accepts
+        rule = make_rule([cfg['rule'][0], cfg['rule'][1], 'false'])
+        if not any(rule(build_graph(spec)) for spec in INITIAL_GRAPHS[cfg['initial']]):
+            cfg['initial'] = 'single'
+    return cfg
+
+
+def collapse_config(rng, optimiser='evo'):
+    """tiny search space + structural diversity check + a label whose graphs cannot be evaluated:
+    the diversity refill has to create fresh mutants, some of which fail evaluation"""
+    cfg = random_config(rng, optimiser=optimiser, multi=False)
+    cfg.update({'node_types': ['a', 'bad'] if rng.random() < 0.6 else ['a', 'b', 'bad'], 'max_depth': rng.choice([1, 2]),
+                'initial': 'single', 'diversity_check': rng.choice([1, 2]), 'pop_size': rng.choice([5, 6, 8]),
+                'num_of_generations': rng.choice([4, 6, 8]), 'crossover': ['none'], 'keep_n_best': 1,
+                'mutation': ['single_change', 'single_add', 'single_drop'], 'early_stopping_iterations': None})
+    kind = rng.choice(['raise', 'none', 'nan'])
+    faults = rng.choice([{'by_label': ['bad', kind]}, {'by_label': ['bad', kind]},
+                         {'by_index': {str(i): kind for i in range(1, 400, rng.choice([2, 3]))}},
+                         {'all_after': [rng.choice([3, 5]), kind]}])
+    if rng.random() < 0.5:
+        cfg['pop_size'] = rng.choice([2, 3])
+        cfg['max_depth'] = 1
+    cfg['objective'] = {'metrics': [rng.choice(['size', 'label', 'balance'])], 'multi': False, 'faults': faults}
+    cfg.pop('rule', None)
+    return cfg
+
+
+def strict_rule_config(rng, optimiser='evo'):
+    """a strict custom rule with individuals on its boundary and operators that can only move
+    outwards: every mutation attempt is rejected by the verifier"""
+    cfg = random_config(rng, optimiser=optimiser, multi=False)
+    cfg.update({'rule': ['max_nodes', 3, rng.choice(['false', 'raise'])], 'initial': 'chain',
+                'mutation': rng.choice([['single_add'], ['single_add', 'single_edge']]), 'crossover': ['none'],
+                'operator_attempts': rng.choice([3, 5]), 'mutation_prob': 1.0, 'max_depth': 5,
+                'num_of_generations': rng.choice([3, 4]), 'early_stopping_iterations': None, 'diversity_check': -1})
+    cfg['objective'] = {'metrics': ['neg_size'], 'multi': False}
+    return cfg
+
+
+def invalid_initial_config(rng):
+    """every supplied initial graph violates a custom rule (random search generates its own start)"""
+    cfg = random_config(rng, optimiser=rng.choice(['random_search', 'random_mutation']), multi=False)
+    cfg.update({'rule': ['no_label', 'c', rng.choice(['false', 'raise'])], 'initial': 'chain', 'node_types': ['a', 'b'],
+                'num_of_generations': rng.choice([2, 4])})
+    cfg['objective'] = {'metrics': [rng.choice(['neg_size', 'size'])], 'multi': False}
     return cfg
